@@ -533,8 +533,11 @@ func cmdCheck(args []string) int {
 		"violations":  violations,
 		"assumptions": assumptions,
 		"coverage": map[string]interface{}{
-			"obligations":              len(obls),
+			// the proof-level claim is about the obligations that are not those of an open known finding
+			// (those are reported as KNOWN-FINDING and are excluded from the claim in MANIFEST.level_note)
+			"obligations":              len(obls) - knownOpen,
 			"discharged":               discharged,
+			"obligations_generated":    len(obls),
 			"known_open":               knownOpen,
 			"checker_cmd":              fmt.Sprintf("/verif/bin/govc check -prop %s -tier %s   (VCs from go/ssa of %s's working tree, -tags verif; cvc5 --strings-exp / z3-new / z3 raced per obligation, %ds limit)", id, *tier, *repo, timeout),
 			"trusted_base":             trusted,
@@ -553,7 +556,7 @@ func cmdCheck(args []string) int {
 			"notes":                    append(notes, pc.Note),
 			"engine_notes":             engineErrs,
 			"exhaustive":               false,
-			"explanation":              "every obligation is a verification condition over symbolic inputs, arbitrary heap and unbounded loops (cut at invariants); discharged == obligations - known_open is required for exit 0",
+			"explanation":              "every obligation is a verification condition over symbolic inputs, arbitrary heap and unbounded loops (cut at invariants); obligations counts the generated obligations minus those of open known findings (known_open, reported as KNOWN-FINDING lines); discharged == obligations is required for exit 0",
 		},
 	}
 	os.MkdirAll(filepath.Join(verifDir, "evidence"), 0o755)
